@@ -32,24 +32,32 @@ REPO = os.environ.get("MUT_REPO", "/repo")
 VERIF = os.environ.get("MUT_VERIF", "/verif")
 
 FILES = {
-    "persim/bottleneck.py": ["C01", "C06", "C07", "C20", "C19"],
-    "persim/wasserstein.py": ["C02", "C06", "C07", "C20", "C19"],
-    "persim/heat.py": ["C14", "C19"],
-    "persim/sliced_wasserstein.py": ["C15", "C19"],
-    "persim/persistent_entropy.py": ["C16", "C19"],
-    "persim/gromov_hausdorff.py": ["C05", "C17", "C19"],
-    "persim/images.py": ["C04", "C12", "C11", "C18", "C19"],
-    "persim/images_kernels.py": ["C13", "C04", "C19"],
-    "persim/images_weights.py": ["C04", "C11", "C19"],
-    "persim/landscapes/exact.py": ["C03", "C09", "C10", "C19"],
-    "persim/landscapes/approximate.py": ["C08", "C09", "C10", "C19"],
-    "persim/landscapes/auxiliary.py": ["C09", "C10", "C08", "C03"],
-    "persim/landscapes/base.py": ["C03", "C10", "C09", "C08"],
-    "persim/landscapes/tools.py": ["C08", "C09", "C10"],
+    "persim/bottleneck.py": ["C01", "C06"],
+    "persim/wasserstein.py": ["C02", "C06"],
+    "persim/heat.py": ["C14"],
+    "persim/sliced_wasserstein.py": ["C15"],
+    "persim/persistent_entropy.py": ["C16"],
+    "persim/gromov_hausdorff.py": ["C05", "C17"],
+    "persim/images.py": ["C04", "C12", "C18", "C11"],
+    "persim/images_kernels.py": ["C13", "C04"],
+    "persim/images_weights.py": ["C04"],
+    "persim/landscapes/exact.py": ["C03", "C09", "C10"],
+    "persim/landscapes/approximate.py": ["C08", "C09", "C10"],
+    "persim/landscapes/auxiliary.py": ["C09", "C10", "C08"],
+    "persim/landscapes/base.py": ["C03", "C10"],
+    "persim/landscapes/tools.py": ["C08", "C09"],
     "persim/landscapes/transformer.py": ["C18", "C08"],
-    "persim/visuals.py": ["C20", "C19"],
+    "persim/visuals.py": ["C20"],
     "persim/landscapes/visuals.py": ["C20"],
 }
+# the purity check C19 (every argument byte-compared, repeated results) is added for mutations that can only show
+# there: dropped copies, np.array -> np.asarray, np.zeros -> np.empty, deleted statements.  The metric-law check C07
+# and the checks of other properties anchored in the same file are left out of the screening (cost), i.e. the
+# screening understates detection.
+C19_OPS = ("drop-copy", "drop-deepcopy", "name:array", "name:zeros", "delete", "augassign")
+C19_FILES = ("persim/images.py", "persim/visuals.py", "persim/bottleneck.py", "persim/wasserstein.py", "persim/heat.py",
+             "persim/sliced_wasserstein.py", "persim/persistent_entropy.py", "persim/landscapes/exact.py",
+             "persim/landscapes/approximate.py", "persim/gromov_hausdorff.py")
 # scopes no property talks about (the deprecated PersImage class, 3-D landscape plots)
 SKIP_SCOPES = {
     "persim/images.py": {"PersImage"},
@@ -277,7 +285,10 @@ def evaluate(m, verif):
             res["verdict"] = "suite-killed"
             return res
         res["checks"] = {}
-        for c in FILES[m["file"]]:
+        checks = list(FILES[m["file"]])
+        if m["op"] in C19_OPS and m["file"] in C19_FILES:
+            checks.append("C19")
+        for c in checks:
             env2 = dict(os.environ, VERIF_REPO=scratch, VERIF_FAILFAST="1", VERIF_WORKERS=os.environ.get("MUT_CHECK_WORKERS", "4"))
             try:
                 r = subprocess.run([os.path.join(verif, "run"), c, "--tier", "quick"], env=env2, stdout=subprocess.PIPE,
@@ -309,7 +320,7 @@ def evaluate(m, verif):
 
 
 def run(mfile, outfile, jobs):
-    from concurrent.futures import ThreadPoolExecutor
+    from concurrent.futures import ThreadPoolExecutor, as_completed
 
     ms = json.load(open(mfile))
     done = set()
@@ -323,7 +334,8 @@ def run(mfile, outfile, jobs):
                     VERIF + "/", verif + "/"], check=True)
     try:
         with ThreadPoolExecutor(jobs) as ex, open(outfile, "a") as f:
-            for res in ex.map(lambda m: evaluate(m, verif), todo):
+            for fut in as_completed([ex.submit(evaluate, m, verif) for m in todo]):
+                res = fut.result()
                 f.write(json.dumps(res) + "\n")
                 f.flush()
                 print(res["id"], res["file"], res["line"], res["op"], repr(res["old"]), "->", repr(res["new"]), res["verdict"],
